@@ -92,7 +92,10 @@ type Ctx struct {
 	vioCount   map[string]int
 }
 
+const maxShardBytes = 900000
+
 type shard struct {
+	bytes  int
 	header string
 	typ    string
 	footer string
@@ -171,8 +174,11 @@ func (c *Ctx) AddCase(term string, j interface{}) {
 	}
 	c.cur.cases = append(c.cur.cases, term)
 	c.cur.jsons = append(c.cur.jsons, j)
+	c.cur.bytes += len(term)
 	c.Res.ModelCases++
-	if len(c.cur.cases) >= c.cur.limit {
+	// a shard is cut by case count or by size: coqc's time on a shard grows with the size of its literals, and one
+	// oversized shard would otherwise decide the wall time of the whole run
+	if len(c.cur.cases) >= c.cur.limit || c.cur.bytes >= maxShardBytes {
 		h, t, f, l := c.cur.header, c.cur.typ, c.cur.footer, c.cur.limit
 		c.flushShard()
 		c.cur = &shard{header: h, typ: t, footer: f, limit: l}
